@@ -57,6 +57,10 @@ def jobs(prop, tier, seed):
                 # check_type + pass-through of tuples (TupleCheckOnlyMethod / CheckedTupleMethod)
                 for fs in ({"tuple": True}, {"collections": True}):
                     out.append(dict(harness="C08", variant="passthrough", pool="ser", pid=pid, opts={"flags": fs, "check_type": True}, bounds=b, budget_s=bs))
+                    if any(s.k == "tuple" for s in walk(spec)):
+                        # ... and what check_type is for: an ill-typed value (wrong arity) is refused
+                        # the same way with and without the pass-through optimisation
+                        out.append(dict(harness="C08", variant="passthrough", pool="ser", pid=pid, opts={"flags": fs, "check_type": True, "ill_typed": True}, bounds=dict(b, bad_arity=True), budget_s=bs))
     return out
 
 
@@ -241,6 +245,8 @@ class SerPair(Base):
             self.pt = PassThroughOptions(**job["opts"]["flags"])
             ct = {"check_type": True} if job["opts"].get("check_type") else {}
             self.other = serialization_method(self.prog.tp, pass_through=self.pt, **ct)
+            if job["opts"].get("ill_typed"):
+                self.plain = serialization_method(self.prog.tp, check_type=True)
             self.default = serialization_default()
         self.bounds = bounds_of(job)
         self.functions = sorted(
@@ -255,7 +261,21 @@ class SerPair(Base):
         v = Val(ctx, self.prog, self.bounds).val(self.prog.spec)
         ctx.witness = v
         ctx.run_phase()
-        a = self.plain(v)
+        if self.job["opts"].get("ill_typed"):
+            try:
+                a = self.plain(v)
+            except TypeError:
+                ctx.notes["tag:compared"] = True
+                ctx.notes["tag:refused"] = True
+                try:
+                    b = self.other(v)
+                except TypeError:
+                    return None
+                except Exception as e:
+                    return Failure("ill-typed-value-refused-differently-under-pass-through", type(e).__name__, witness=v, extra={"exc": type(e).__name__})
+                return Failure("ill-typed-value-accepted-under-pass-through", witness=v, extra={"other": b})
+        else:
+            a = self.plain(v)
         try:
             b = self.other(v)
         except Exception as e:
